@@ -841,6 +841,13 @@ class Gen:
             return N("seq", [N("one", s=r.choice("ab")), N("one", s=r.choice("abc"))])
         if a == "slot":
             return N("slot", k=r.randrange(self.slots))
+        # ---- bytes that text-oriented code mishandles: NUL inside literals, 0xff / 0x80 (negative as char) ----
+        if a == "bin_one":
+            return N("one", s=r.choice(["\x00", "\xff", "\x80", "\x00a", "a\xff"]))
+        if a == "bin_not_one":
+            return N("not_one", s=r.choice(["\x00", "\xff", "a\x00"]))
+        if a == "bin_string":
+            return N("string", s=r.choice(["a\x00b", "\x00\x00", "\xff\x00a", "a\x00", "\x00a", "b\xffb", "a\x00\x00b"]))
         # ---- atoms whose character sets do / do not contain an end-of-line character (C06: bump_help decision) ----
         if a == "nl_one":
             return N("one", s=r.choice(["\n", "\r", "\n\r"]))
